@@ -516,6 +516,7 @@ def run(chk, replay=None):
         chk.cov["nesting_measure_checked"] = len(nidx)
     t_model = time.time() - t0
     failing, mism = [], []
+    compared = Counter()      # what was actually compared: model vs implementation lines, oracle-only lines, per build
     dist_out = Counter()
     probes = {}
     flat_ok = [0, 0]
@@ -525,6 +526,7 @@ def run(chk, replay=None):
         chk.cov["wall_impl_" + prof] = round(time.time() - t0, 2)
         for (c, kind, depth), o, idx in zip(cases, impl, range(len(cases))):
             why = oracle(o, kind, depth)
+            compared["oracle_" + prof] += 1
             if why:
                 failing.append((c, kind, depth, "%s [%s build]" % (why, prof), o))
             if prof == "debug":
@@ -535,6 +537,7 @@ def run(chk, replay=None):
             if (kind.startswith("probe-") or kind.startswith("deep-")) and not kind.startswith("deep-run-"):
                 probes.setdefault(prof, {}).setdefault(kind.split("-", 1)[1], {})[str(depth)] = o.split(" ")[0]
             if model is not None and model[idx] is not None and not (kind.startswith("probe-") and o.startswith("ABORT")):
+                compared["model_vs_impl_" + prof] += 1
                 if norm(o) != model[idx]:
                     mism.append((c, kind, o, model[idx], prof))
     for (c, kind, depth), idx in zip(cases, range(len(cases))):
@@ -545,7 +548,11 @@ def run(chk, replay=None):
         chk.sample(dict(case=c[:160] + ("..." if len(c) > 160 else ""), kind=cases[i][1],
                         model=(model[i][:120] if model and model[i] else None)))
     sizes = [(len(c.split(" ")[1]) // 2 if c.split(" ")[1] != "-" else 0) for c in lines]
-    chk.cov["disagreements_checked"] = len(cases) * len(bins)
+    # counted inside the comparison loops: result lines of the model compared with result lines of the implementation (0 if no
+    # model ran; the flatbig-* texts and probe depths the implementation aborts on are not compared), plus the min-fuel re-runs
+    chk.cov["disagreements_checked"] = sum(v for k, v in compared.items() if k.startswith("model_vs_impl_")) + (chk.cov.get("min_depth_fuel_runs") or 0)
+    chk.cov["compared"] = dict(compared, min_fuel_vs_full_fuel=chk.cov.get("min_depth_fuel_runs") or 0,
+                               cases=len(cases), model_lines=(sum(1 for x in model if x is not None) if model is not None else 0))
     chk.cov["model_impl_mismatches"] = len(mism)
     chk.cov["wall_model"] = round(t_model, 2)
     chk.cov["distribution"] = dict(
